@@ -292,7 +292,7 @@ class IrProtocolBase(object):
         return self.__class__.__name__
 
     def reset(self, code: IRCode) -> None:
-        if self._last_code is not None and self._last_code == code:
+        if self._last_code is not None and self._last_code is code:
             self._last_code = None
 
             del self._stored_codes[:]
